@@ -63,6 +63,9 @@ def judge(data, cfgname, reqs, end_kind):
             return ("target-differs", "request %d target %r vs %r" % (i, uri, om.target)), "bad"
         if tuple(version) != om.version:
             return ("version-differs", "request %d version %r vs %r" % (i, version, om.version)), "bad"
+        if body is None:
+            cls.append("unread")
+            continue            # the application left the body alone: only the sequence of requests is compared
         if om.body_status == "ok":
             if body_err is not None:
                 cls.append("over-reject-body")
@@ -82,6 +85,9 @@ def judge(data, cfgname, reqs, end_kind):
                 return ("body-not-prefix:" + om.body_reason, "request %d body %r not a prefix of %r" % (i, body[:40], om.body[:40])), "bad"
             cls.append("body-reject")
         else:   # incomplete
+            if body_err is None and om.body_reason in ("chunk-size-line", "chunk-data", "chunk-terminator"):
+                return ("truncated-chunked-body-read-as-complete", "request %d: the stream ends inside the chunked body (%s), yet the body was read to a clean end: %r" % (
+                    i, om.body_reason, body[:40])), "bad"
             if body_err is None and not om.body.startswith(body):
                 return ("body-not-prefix:" + om.body_reason, "request %d body %r not a prefix of %r" % (i, body[:40], om.body[:40])), "bad"
             cls.append("body-incomplete")
@@ -209,6 +215,21 @@ SEEDS = [
 PROXY_SEED = b"PROXY TCP4 10.0.0.1 10.0.0.2 1111 80\r\nPOST /a HTTP/1.1\r\nContent-Length: 2\r\n\r\nhi" + NEXT
 
 
+PROXY2 = b"PROXY TCP4 6.6.6.6 10.0.0.2 2222 80\r\n"
+
+
+def gen_proxy_positions():
+    """a PROXY line is connection preamble: in front of the first request only - anywhere later it is not a request line"""
+    first = [b"GET /1 HTTP/1.1\r\nHost: h\r\n\r\n", b"POST /1 HTTP/1.1\r\nContent-Length: 2\r\n\r\nhi",
+             b"POST /1 HTTP/1.1\r\nTransfer-Encoding: chunked\r\n\r\n2\r\nhi\r\n0\r\n\r\n"]
+    for pre in (b"", PROXY_SEED[:PROXY_SEED.index(b"\r\n") + 2]):
+        for f in first:
+            for n in (1, 2):
+                yield pre + f * n + PROXY2 + NEXT
+                yield pre + f * n + PROXY2 + PROXY2 + NEXT
+                yield pre + PROXY2 + f * n + NEXT
+
+
 def gen_bytes(seed):
     """every byte value substituted at, and inserted before, every offset"""
     for off in range(len(seed) - len(NEXT) + 4):
@@ -252,6 +273,31 @@ def gen_segments(kmax):
                 yield (s, cuts, None)
 
 
+SMUGGLE = b"GET /smuggled HTTP/1.1\r\nHost: s\r\n\r\n"
+UNREAD_SEEDS = [m + b" /u HTTP/1.1\r\nHost: h\r\n" + fr + NEXT
+                for m in (b"GET", b"HEAD", b"POST", b"DELETE", b"OPTIONS")
+                for fr in (b"Content-Length: %d\r\n\r\n" % len(SMUGGLE) + SMUGGLE,
+                           b"Transfer-Encoding: chunked\r\n\r\n%x\r\n" % len(SMUGGLE) + SMUGGLE + b"\r\n0\r\n\r\n",
+                           b"Content-Length: 9000\r\n\r\n" + (SMUGGLE * 300)[:9000])]
+
+
+def gen_unread():
+    """the application does not read the body (whatever the method): the next request still starts after it"""
+    for s in UNREAD_SEEDS:
+        yield (s, (), gparse.SKIP)
+        b0 = s.index(b"\r\n\r\n") + 4
+        for c in (b0, b0 + 1, b0 + 10, len(s) - len(NEXT), len(s) - len(NEXT) - 3):
+            yield (s, (c,), gparse.SKIP)
+
+
+def gen_truncated():
+    """every prefix of the body-carrying seeds"""
+    for s in (SEEDS[1], SEEDS[2], SEEDS[6], SEEDS[0]):
+        s = s[:-len(NEXT)]
+        for i in range(s.index(b"\r\n\r\n") + 4, len(s)):
+            yield s[:i]
+
+
 def gen_api():
     """body read programs x (whole | every single cut inside the body region)"""
     for s in API_SEEDS:
@@ -282,10 +328,13 @@ def _gens(tier):
     for i, s in enumerate(SEEDS):
         G["bytes-seed%d" % i] = ((lambda s=s: gen_bytes(s)), ["default"] if not thorough else ["default", "refuse", "anymethod"])
     G["bytes-proxy"] = (lambda: gen_bytes(PROXY_SEED), ["proxy"])
+    G["proxy-line-positions"] = (gen_proxy_positions, ["proxy"])
     G["segments-1cut"] = (lambda: gen_segments(1), ["default", "small-limits"])
     if thorough:
         G["segments-2cuts"] = (lambda: gen_segments(2), ["default"])
     G["body-read-programs"] = (gen_api, ["default"])
+    G["body-left-unread"] = (gen_unread, ["default", "anymethod"])
+    G["truncated-bodies"] = (gen_truncated, ["default"])
     if True:
         te = SEEDS[1]
         a = te.index(b"Transfer-Encoding:")
